@@ -753,6 +753,16 @@ impl<'a> Ctx<'a> {
                         _ => false,
                     };
                     // (when `allowed` does not admit Skipped the mismatch was reported above)
+                    // (a second result for a test case that says "skipped" is a test case reported as
+                    // skipped just the same)
+                    if to.further.iter().any(|r| *r == Report::Skipped) && to.report != Report::Skipped && !after_timeout {
+                        out.push(v(
+                            "C15",
+                            "skipped-without-skip-code",
+                            Some(&tj.nonce),
+                            format!("test {} is reported as {:?} and once more as skipped; no test case exited with its skip code and it does not follow a timed-out one", tj.nonce, to.report),
+                        ));
+                    }
                     if to.report == Report::Skipped && !after_timeout && tj.allowed.admits(&Report::Skipped) {
                         out.push(v(
                             "C15",
@@ -1378,6 +1388,49 @@ impl<'a> Ctx<'a> {
                     Some(n),
                     format!("test {} was handed to a shell {} times (pids {:?})", n, pids.len(), pids),
                 ));
+            }
+        }
+        // ... and at most once as the shells tell it: what a shell actually ran (it reads a script
+        // it was given as a file piece by piece - another process may have rewritten the file by
+        // then), not only what scrut handed over
+        {
+            let mut ran: std::collections::BTreeMap<&str, Vec<u32>> = Default::default();
+            for (pid, p) in self.facts.procs.iter().enumerate() {
+                for c in &p.cmds {
+                    let e = ran.entry(c.nonce.as_str()).or_default();
+                    if !e.contains(&(pid as u32)) {
+                        e.push(pid as u32);
+                    }
+                }
+            }
+            for (n, pids) in &ran {
+                if pids.len() > 1 && self.facts.delivered.get(*n).map(|d| d.len() <= 1).unwrap_or(true) {
+                    out.push(v(
+                        "C20",
+                        "executed-more-than-once",
+                        Some(n),
+                        format!("test {} was run by {} shells (pids {:?}), handed over to {:?}", n, pids.len(), pids, self.facts.delivered.get(*n)),
+                    ));
+                }
+            }
+            // a shell that was handed one test case and ran another one instead
+            for (pid, p) in self.facts.procs.iter().enumerate() {
+                if p.script_nonces.len() != 1 {
+                    continue;
+                }
+                let mine = &p.script_nonces[0];
+                if let Some(c) = p.cmds.iter().find(|c| &c.nonce != mine) {
+                    if !p.cmds.iter().any(|c| &c.nonce == mine) {
+                        for prop in ["C20", "C13"] {
+                            out.push(v(
+                                prop,
+                                if prop == "C20" { "not-executed" } else { "expression-not-run-verbatim" },
+                                Some(mine),
+                                format!("the shell (pid {}) that was handed test {} ran test {} instead", pid, mine, c.nonce),
+                            ));
+                        }
+                    }
+                }
             }
         }
         // nothing runs that was not given: neither on the command line nor by prepend / append
